@@ -20,6 +20,24 @@ MemOf(pairs) == [ad \in {pairs[k][1] : k \in 1..Len(pairs)} |->
                    LET k == CHOOSE j \in 1..Len(pairs) : pairs[j][1] = ad IN pairs[k][2]]
 InputOf(r) == [c \in 1..9 |-> IF c = 1 THEN r.input ELSE <<>>]
 
+\* the numbers a trace line shows after its leading columns, in order, as a function of the state BEFORE the instruction (mechanism
+\* grade: the property speaks of the leading columns only; a difference is counted as drift, never judged)
+Expl(s) ==
+  LET i == Instr(s)  c == i \div 16  v == OrNibble(s.o, i % 16)  pc1 == Add(s.pc, 1) IN
+  CASE c \in {0, 1} -> <<v, Rd(s.mem, v)>>
+    [] c = 2 -> <<v, s.a>>
+    [] c \in {3, 4} -> <<v>>
+    [] c = 5 -> <<pc1, v, Add(pc1, v)>>
+    [] c = 6 -> <<s.a, v, Add(s.a, v), Rd(s.mem, Add(s.a, v))>>
+    [] c = 7 -> <<s.b, v, Add(s.b, v), Rd(s.mem, Add(s.b, v))>>
+    [] c = 8 -> <<s.b, v, Add(s.b, v), s.a>>
+    [] c \in {9, 10, 11} -> <<v, Add(pc1, v)>>
+    [] c = 14 -> <<v, 4, Shl4(v)>>
+    [] c = 15 -> <<-256, v, 4, Nfix(v)>>
+    [] c = 13 /\ v = 0 -> <<s.b>>
+    [] c = 13 /\ v = 1 -> <<s.a, s.b, Add(s.a, s.b)>>
+    [] c = 13 /\ v = 2 -> <<s.a, s.b, Sub(s.a, s.b)>>
+    [] OTHER -> <<>>
 Verdict(r) ==
   LET W == L!Walk(r.prog, r.bytes)
       entry(nm) == W.labs[nm]
@@ -42,11 +60,12 @@ Verdict(r) ==
              ELSE IF ln[2] # s.pc THEN [acc EXCEPT !.bad = "byte address"]
              ELSE IF ln[5] # Instr(s) \div 16 \/ ln[6] # Instr(s) % 16 THEN [acc EXCEPT !.bad = "mnemonic or operand"]
              ELSE IF <<ln[3], ln[4]>> # own THEN [acc EXCEPT !.bad = "symbol label"]
-             ELSE [s |-> t, k |-> acc.k + 1, bad |-> "", ents |-> IF own[2] = 0 /\ own[1] # "" THEN Append(acc.ents, own[1]) ELSE acc.ents]
-      f == FoldLeft(StepL, [s |-> State0(MemOf(r.img)), k |-> 0, bad |-> "", ents |-> <<>>], r.lines)
+             ELSE [s |-> t, k |-> acc.k + 1, bad |-> "", ents |-> IF own[2] = 0 /\ own[1] # "" THEN Append(acc.ents, own[1]) ELSE acc.ents,
+                   dr |-> acc.dr + (IF Len(ln) >= 7 /\ ~(Instr(s) = 13 * 16 + 3 /\ s.o = 0) /\ ln[7] # Expl(s) THEN 1 ELSE 0)]
+      f == FoldLeft(StepL, [s |-> State0(MemOf(r.img)), k |-> 0, bad |-> "", ents |-> <<>>, dr |-> 0], r.lines)
       isasm == r.kind = "asm"          \* a hand-written assembly program: no source-level call sequence to compare with
       xr == IF isasm THEN [st |-> "exit", amb |-> FALSE, calls |-> <<>>] ELSE X!Run(r.xprog)
-      base == [id |-> r.id, n |-> f.k, entries |-> Len(f.ents)]
+      base == [id |-> r.id, n |-> f.k, entries |-> Len(f.ents), drift |-> f.dr]
   IN IF W.err # "" THEN base @@ [v |-> "walk", why |-> W.err]
      ELSE IF ~symOK THEN base @@ [v |-> "bad", why |-> "symbol table does not list each procedure once at its entry"]
      ELSE IF ~isasm /\ \E nm \in DOMAIN r.xprog.procs : \A i \in 1..Len(r.symtab) : r.symtab[i][1] # nm
